@@ -70,7 +70,8 @@ add("C11", "proof",
     "zero-division errors, symmetry of == and negation by !=, relational consistency, functions never equal, nil operands "
     "always fail, every operator total with documented errors only, slice length / split+concat / length of concatenation, "
     "index error iff out of bounds; & and | commute (errors included) and associate, ! and ~ are involutions defined on one type each, "
-    "De Morgan, shifts of integers are total with 64-bit results, out-of-range counts give 0, zero count is the identity. One law (an int equals its float) is proved under the hypothesis that int-to-float "
+    "De Morgan, shifts of integers are total with 64-bit results, out-of-range counts give 0, zero count is the identity, concatenation associates with the empty value as unit, "
+    "integer + and * commute and associate through the 64-bit wrap. One law (an int equals its float) is proved under the hypothesis that int-to-float "
     "conversion is not NaN and is named _partial. The model is tied to types/value by a correspondence run (about 30k operand "
     "tuples incl. float bit patterns and float text) and the laws are also evaluated directly on the Go results.",
     COMMON_NOTE + " Axioms used: FloatAxioms.eqb_spec, ltb_spec, leb_spec.",
